@@ -191,7 +191,7 @@ theorem accepted_contract_receive_is_next (c : Cand) (f : Facts) (h : verifyBloc
 
 /-- the facts of a node at momentum 8 for user account blocks built by `GenerateFromTemplate` -/
 def honestFacts : Facts :=
-  { ccid := 100, maOn := true, store := true, confh := some 2, prevKnown := true, sfp := 1, pmah := some 5,
+  { ccid := 100, maOn := true, store := true, store2 := true, confh := some 2, prevKnown := true, sfp := 1, pmah := some 5,
     fex := false, ftome := false, recvd := false, gate := true, fconf := 0, seq := 0, pow := true,
     avail := some 10500000, mplasma := none, vsend := false, bal := 1200000000000, hok := true, sok := true,
     pka := true, regen := none }
@@ -261,7 +261,7 @@ theorem delivered_descendant_content_irrelevant (c : Cand) (descs' : List Desc) 
     rw [hsubj]
     simp only [abAll, allChecks, List.map, version, chainIdentifier, blockType, amounts, powCheck, previous,
       momentumAcknowledged, fromHash, sequencer, hma, Cand.subj]
-  simp only [verifyBlock, supervisorStages, List.map, verifyAccountBlock, verifyTransaction, txChecks, getContext,
+  simp only [verifyBlock, supervisorStages, List.map, verifyAccountBlock, verifyTransaction, txChecks, getContext, getContext2, getContextWith,
     vmApplyBlock, txHash, txSignature, txProducer, txDescendantBlocks, hcr, hall, if_true]
 
 /-- both the honest delivery and one with an altered descendant amount are accepted … -/
